@@ -110,7 +110,11 @@ def optimize_high_level_cmd_stream(sg, arch):
     slot_size = 256
     lut_start = arch.shram_lut_address
     lut_end = lut_start + arch.shram_lut_size
+    lut_index_of_ps = {}  # LUT slot currently assigned to each pass
     for cmd in sg.high_level_command_stream:
+        if isinstance(cmd, NpuStripe) and cmd.ps in lut_index_of_ps:
+            # The slot is a property of the stripe: a later stripe of the same operation may get another one
+            cmd.lut_index = lut_index_of_ps[cmd.ps]
         if isinstance(cmd, NpuStripe) and cmd.ps.lut_tensor is None and arch.shram_reserved_unused_banks == 0:
             # The command overwrites the last 2 banks containing the LUT; next LUT operation will require DMA
             # TODO: check the command's SHRAM usage in more detail to determine if the LUT is overwritten or not
@@ -127,6 +131,7 @@ def optimize_high_level_cmd_stream(sg, arch):
             lut_tens.equivalence_id = existing_tens.equivalence_id
             lut_tens.address = existing_tens.address
             cmd.ps.primary_op.activation.lut_index = get_lut_index(arch, existing_tens)
+            lut_index_of_ps[cmd.ps] = cmd.ps.primary_op.activation.lut_index
             continue
         # Place the LUT in the last 2 blocks of SHRAM
         # Alignment is always on the size of the LUT, 256 for 256-byte LUT, 1K for 1K LUT, etc
@@ -134,6 +139,7 @@ def optimize_high_level_cmd_stream(sg, arch):
         lut_tens.equivalence_id = uuid.uuid4()
         lut_tens.address = address
         cmd.ps.primary_op.activation.lut_index = (address - lut_start) // slot_size
+        lut_index_of_ps[cmd.ps] = cmd.ps.primary_op.activation.lut_index
         lut_state = lut_state.put(lut_tens)
         cmd_stream.append(cmd)
     sg.high_level_command_stream = cmd_stream
